@@ -24,9 +24,10 @@ MkP(scn) ==
       base |-> [t \in 1..nt |-> IF scn.ttype[t] \in {2, 3, 4}
                                 THEN CHOOSE u \in 1..nt : scn.ttype[u] = 0 /\ scn.tnum[u] = scn.tnum[t]
                                 ELSE t],
-      exact |-> \A o \in ops : o.c \in {"", "eq"}]
+      exact |-> \A o \in ops : o.c \in {"", "eq"},
+      rinst |-> [r \in 1..scn.nr |-> scn.rtype[r] \in {0, 1}]]
 
-NoP == [prog |-> <<>>, nt |-> 0, nr |-> 0, nv |-> 1, na |-> 1, fam |-> "", id |-> "", base |-> <<>>, exact |-> FALSE]
+NoP == [prog |-> <<>>, nt |-> 0, nr |-> 0, nv |-> 1, na |-> 1, fam |-> "", id |-> "", base |-> <<>>, exact |-> FALSE, rinst |-> <<>>]
 
 \* the scenarios of all runs in the file, computed once (constant level)
 ResetLines == SelectSeq([i \in 1..Len(Rec) |-> i], LAMBDA i : Rec[i].ev = "reset")
